@@ -1245,3 +1245,36 @@ Proof.
       cbn [k_imm k_reg1 k_reg2 tok_rri]. rewrite (need_reg_some _ _ _ Hd), (need_reg_some _ _ _ Hs).
       reflexivity.
 Qed.
+
+(* ------------------------------------------------------------------------------------------ *)
+(** * [grouped] in words: between two entries of one line there are only entries of that line *)
+Definition adjacent_lines (text : list (Z * tentry)) : Prop :=
+  forall pre ln e mid e' post, text = pre ++ (ln, e) :: mid ++ (ln, e') :: post ->
+    Forall (fun x => fst x = ln) mid.
+
+Lemma grouped_run mid : forall ln e e' post, grouped ((ln, e) :: mid ++ (ln, e') :: post) ->
+  Forall (fun x => fst x = ln) mid.
+Proof.
+  induction mid as [|[l1 e1] mid' IH]; intros ln e e' post Hg; [constructor|].
+  cbn [app grouped] in Hg. destruct Hg as [Hnext Hg].
+  assert (Hocc: In ln (map fst ((l1, e1) :: mid' ++ (ln, e') :: post))).
+  { cbn [map fst]. right. rewrite map_app, in_app_iff. right. left. reflexivity. }
+  specialize (Hnext Hocc). subst l1. constructor; [reflexivity|].
+  apply (IH ln e1 e' post). exact Hg.
+Qed.
+
+Lemma grouped_spec_lem : forall text, grouped text <-> adjacent_lines text.
+Proof.
+  unfold adjacent_lines. intros text. split.
+  - intros Hg pre. revert text Hg. induction pre as [|[l0 e0] pre' IH]; intros text Hg ln e mid e' post ->.
+    + eapply grouped_run. exact Hg.
+    + cbn [app grouped] in Hg. destruct Hg as [_ Hg]. eapply IH; [exact Hg | reflexivity].
+  - induction text as [|[ln e] t IH]; intros H; [exact Logic.I|]. cbn [grouped]. split.
+    + intros Hin. apply in_map_iff in Hin as ([l e'] & Hl & Hin). cbn [fst] in Hl. subst l.
+      apply in_split in Hin as (a & b & ->).
+      pose proof (H [] ln e a e' b eq_refl) as Ha.
+      destruct a as [|[l1 e1] a']; cbn [app]; [reflexivity|].
+      apply Forall_inv in Ha. cbn [fst] in Ha. exact Ha.
+    + apply IH. intros pre l0 e0 mid e' post ->.
+      apply (H ((ln, e) :: pre) l0 e0 mid e' post). reflexivity.
+Qed.
